@@ -15,7 +15,6 @@ import os
 import sys
 import time
 import traceback
-from concurrent.futures import ProcessPoolExecutor, as_completed
 
 ROOT = os.path.dirname(os.path.dirname(os.path.abspath(__file__)))
 
@@ -45,7 +44,27 @@ def _worker(pid, case_name, tier, seed):
     return case.rep
 
 
+def _empty_report(name, err):
+    return dict(name=name, harness_errors=[err], obligations=0, discharged=0, ground=0, inconclusive=[], violations=[],
+                known_findings=[], nonreproducing=[], samples=[], regimes={}, validated=0, validation_mismatch=[], notes=[],
+                paths=0, nontrivial_paths=0, skipped_after_violation=0, obligation_labels={}, twin_checked=0, twin_ok=0,
+                stats={}, wall_s=0, exc_outcomes={})
+
+
+def _child(conn, pid, name, tier, seed):
+    try:
+        rep = _worker(pid, name, tier, seed)
+    except BaseException as ex:  # noqa
+        rep = _empty_report(name, f"worker failed: {ex!r}\n{traceback.format_exc()[-1200:]}")
+    try:
+        conn.send(rep)
+    finally:
+        conn.close()
+
+
 def run_property(pid: str, tier: str, seed: int, jobs: int | None = None, only=None):
+    """one OS process per case (spawn), at most `jobs` at a time, each under a wall-clock limit: a solver call
+    that ignores its timeout (seen with nlsat on huge coefficients) ends as a harness error, never as a hang."""
     t0 = time.time()
     sys.path.insert(0, ROOT)
     mod = importlib.import_module(f"harness.{pid.lower()}")
@@ -54,23 +73,49 @@ def run_property(pid: str, tier: str, seed: int, jobs: int | None = None, only=N
         names = [n for n in names if any(o in n for o in only)]
     jobs = jobs or int(os.environ.get("VERIF_JOBS", "0")) or min(16, os.cpu_count() or 4)
     jobs = max(1, min(jobs, len(names)))
+    limit = float(os.environ.get("VERIF_CASE_TIMEOUT") or 0)
+    if not limit:
+        ct = getattr(mod, "CASE_TIMEOUT", None)
+        limit = float(ct.get(tier, 0)) if isinstance(ct, dict) else 0.0
+    if not limit:
+        limit = 3600.0 if tier == "thorough" else 900.0
     reports = []
-    if jobs == 1 or os.environ.get("VERIF_INLINE"):
+    if os.environ.get("VERIF_INLINE"):
         for n in names:
             reports.append(_worker(pid, n, tier, seed))
     else:
         ctx = mp.get_context("spawn")
-        with ProcessPoolExecutor(max_workers=jobs, mp_context=ctx) as ex:
-            futs = {ex.submit(_worker, pid, n, tier, seed): n for n in names}
-            for f in as_completed(futs):
-                try:
-                    reports.append(f.result())
-                except Exception as e:  # worker died
-                    reports.append(dict(name=futs[f], harness_errors=[f"worker crashed: {e!r}"], obligations=0, discharged=0,
-                                        ground=0, inconclusive=[], violations=[], known_findings=[], nonreproducing=[],
-                                        samples=[], regimes={}, validated=0, validation_mismatch=[], notes=[], paths=0,
-                                        nontrivial_paths=0, skipped_after_violation=0, obligation_labels={}, twin_checked=0,
-                                        twin_ok=0, stats={}, wall_s=0, exc_outcomes={}))
+        pending = list(names)
+        running = {}  # name -> (proc, conn, start)
+        while pending or running:
+            while pending and len(running) < jobs:
+                n = pending.pop(0)
+                parent, child = ctx.Pipe(duplex=False)
+                pr = ctx.Process(target=_child, args=(child, pid, n, tier, seed), daemon=True)
+                pr.start()
+                child.close()
+                running[n] = (pr, parent, time.time())
+            done = []
+            for n, (pr, conn, st) in running.items():
+                if conn.poll(0):
+                    try:
+                        reports.append(conn.recv())
+                    except EOFError:
+                        reports.append(_empty_report(n, "worker died without a report"))
+                    pr.join(5)
+                    done.append(n)
+                elif not pr.is_alive():
+                    reports.append(_empty_report(n, f"worker exited with code {pr.exitcode} without a report"))
+                    done.append(n)
+                elif time.time() - st > limit:
+                    pr.kill()
+                    pr.join(5)
+                    reports.append(_empty_report(n, f"case exceeded its wall-clock limit of {limit:.0f}s (killed): inconclusive"))
+                    done.append(n)
+            for n in done:
+                running.pop(n)
+            if not done:
+                time.sleep(0.05)
     reports.sort(key=lambda r: r["name"])
     return finish(pid, tier, seed, mod, reports, time.time() - t0)
 
